@@ -155,7 +155,7 @@ def _finish(c, outcome, args, old):
         kind="sql", detail=str(plain))
 
 
-@contract("stepup/core/step.py::Step.reset_for_rerun", props=["C03", "C09", "C08"])
+@contract("stepup/core/step.py::Step.reset_for_rerun", props=["C03", "C09", "C08", "C05", "C11"])
 class reset_for_rerun:
     """See the module text."""
 
